@@ -1119,7 +1119,15 @@ fn huge_cmd(a: &Args) -> i32 {
             parts.push(format!("{{\"pow\":{},\"count_errors\":{},\"destroyed_while_held\":{},\"ms\":{}}}", o.pow, o.count_errors, o.destroyed_while_held, o.ms));
         }
     }
-    out(&format!("{{\"type\":\"huge\",\"max_pow\":{max_pow},\"cases\":[{}]}}\n", parts.join(",")));
+    let adopt_pow = a.num("--adopt-pow", 0) as u32;
+    let mut ad = vec![];
+    for pow in [8u32, 16, 24, 32] {
+        if pow <= adopt_pow {
+            let o = alloc::sut(|| scale::huge_adopt(pow));
+            ad.push(format!("{{\"pow\":{},\"destroyed\":{},\"count_errors\":{},\"ms\":{}}}", o.pow, o.destroyed, o.count_errors, o.ms));
+        }
+    }
+    out(&format!("{{\"type\":\"huge\",\"max_pow\":{max_pow},\"cases\":[{}],\"adopt_cases\":[{}]}}\n", parts.join(","), ad.join(",")));
     0
 }
 
